@@ -27,7 +27,7 @@ Theorem C19_schedule_independent : forall (loc val : Type) (owns : nat -> loc ->
 Proof. exact schedule_independent. Qed.
 
 Theorem C19_no_global_writes : globals_ok = true.
-Proof. exact globals_checked. Qed.
+Proof. vm_compute. reflexivity. Qed.
 
 Print Assumptions C19_interleaving.
 Print Assumptions C19_schedule_independent.
